@@ -5,7 +5,9 @@ Rec == ndJsonDeserialize(IOEnv.TRACE)
 VARIABLES l, done
 Init == l \in 1..Len(Rec) /\ done = 0
 Once == done = 0 /\ done' = 1 /\ l' = l
+\* the driver process was killed by the scenario (abort, stack overflow) or made no progress (hang)
+Died(e) == e.k \in {"hang", "abort"}
 Report(tag, why) == PrintT("@@" \o tag \o "|" \o ToString(l) \o "|" \o why)
 C13(e) == LET w == SynthWhy(e) IN IF w = "" THEN TRUE ELSE Report("VIOLATION-C13", w)
-NextC13 == Once /\ C13(Rec[l])
+NextC13 == Once /\ (IF Died(Rec[l]) THEN Report("VIOLATION-C13", "the library " \o Rec[l].k \o "s") ELSE C13(Rec[l]))
 ====
